@@ -462,7 +462,9 @@ def drive(case):
     node_order = [n.uid for n in net.nodes()]
     rec['roadm_order'] = [n.uid for n in net.nodes() if isinstance(n, E.Roadm)]
     try:
-        designed_network(eq, net)
+        with RefEstimates() as ref:
+            designed_network(eq, net)
+        rec['ref_gain'] = ref.seen
     except Exception as e:
         rec['exc'] = f'{type(e).__name__}: {e}'
         rec['exc_type'] = type(e).__name__
@@ -514,9 +516,27 @@ def cfg_term(c, rg=()):
             f'{qlit(c["eol"])} {rgl}')
 
 
-def first_estimates(lines):
-    """per RamanFiber of the designed lines: what its first gain estimate returned"""
-    return [(e['uid'], round(e['rgain'], 2)) for ln in lines for e in ln['els'] if e['k'] == 'R' and e.get('rgain') is not None]
+class RefEstimates:
+    """records, per RamanFiber uid, what estimate_raman_gain returned when it was asked without a span input power
+    (nothing cached yet): the model's input c_rg"""
+
+    def __enter__(self):
+        import gnpy.core.network as N
+        from gnpy.core import elements as E
+        self.N, self.orig, self.seen = N, N.estimate_raman_gain, {}
+
+        def estimate_raman_gain(node, equipment, power_dbm):
+            fresh = isinstance(node, E.RamanFiber) and power_dbm is None and not hasattr(node, 'estimated_gain')
+            g = self.orig(node, equipment, power_dbm)
+            if fresh:
+                self.seen[node.uid] = float(g)
+            return g
+        N.estimate_raman_gain = estimate_raman_gain
+        return self
+
+    def __exit__(self, *a):
+        self.N.estimate_raman_gain = self.orig
+        return False
 
 
 def parse_q(s):
@@ -894,7 +914,7 @@ def run(ctx):
         libs.add(tuple(rec['library']))
         # --- correspondence
         if not tie:
-            terms.append(f'run_case ({cfg_term(cfg, first_estimates(rec["after"]))}) '
+            terms.append(f'run_case ({cfg_term(cfg, sorted(rec['ref_gain'].items()))}) '
                          f'{listlit([line_term(ln, dst_first(ln)) for ln in rec["before"]])}')
             meta.append((sc, rec, before_names))
     ctx.extra['t_drive'] = round(time.time() - t0, 1)
